@@ -306,7 +306,7 @@ _SHARING = ("auto", "auto-in-hex", "shared2", "shared3", "own3")
                               dict(k=2, sharing="auto-in-hex"), dict(k=4, sharing="own3"),
                               dict(k=1, sharing="auto-in-hex", placed=True)],
                     "thorough": [dict(k=k, sharing=s, coords=True) for s in _SHARING for k in (1, 2, 3, 4, 5, 6, -1)] +
-                                [dict(k=k, sharing=s, coords=True, placed=True) for s in _SHARING for k in (1, 4, -1)]})
+                                [dict(k=k, sharing=s, coords=True, placed=True) for s in _SHARING[1:] for k in (1, 4, -1)]})
 def block_rotation_pins_sharing_a_locator(ctx, k, sharing, coords=False, placed=False):
     npins = 7 if sharing.startswith("auto") else 2
     b = _pin_block(npins)
@@ -323,7 +323,7 @@ def block_rotation_pins_sharing_a_locator(ctx, k, sharing, coords=False, placed=
         a.add(_build.mk_block())
         a.add(b)
         a.calculateZCoords()
-        core.add(a, core.spatialGrid[1, 0, 0])
+        core.add(a, core.spatialGrid[1, 0, 0])   # (Core.add orients the blocks: a pin lattice is made)
         a.spatialLocator = IndexLocation(ai, aj, 0, core.spatialGrid)
     fuel, clad, wire = b[0], b[1], b[2]
     cladOd = ctx.real("cladOd", 0.8, 1.2)
@@ -333,6 +333,8 @@ def block_rotation_pins_sharing_a_locator(ctx, k, sharing, coords=False, placed=
     wire.p.od = wireOd
     if sharing.startswith("auto"):
         system = (core.spatialGrid if placed else HexGrid.fromPitch(16.2, numRings=2)) if sharing == "auto-in-hex" else None
+        if placed:
+            b.spatialGrid = None    # the lattice Core.add made has the plain pin pitch: make it again with the symbolic one
         b.autoCreateSpatialGrids(system)
         g = b.spatialGrid
         pins = [fuel, clad, wire]
